@@ -318,7 +318,7 @@ absout_harness!(c01_step_ack_write_wpend, 8, { step_body(g::K_ACK, 0, true, true
 // @harness assumes="transport contract: write never returns Ok(0) for a non-empty buffer; a pending write/flush has accepted nothing (cancel-safe I/O)"
 absout_harness!(c01_step_ack_write_fpend, 8, { step_body(g::K_ACK, 0, true, false, true) });
 
-// @harness props=C01,C13,C11,C16,C10,C04,C14 tier=thorough layer=L3c unwind=8 heavy=1
+// @harness props=C01,C13,C11,C16,C10,C04,C14 quick_props=C04,C16 tier=quick layer=L3c unwind=8 heavy=1
 // @harness funcs="Connection::perform_outbound_step (Control), serialize_control_packet, encode_control_packet (real PUBACK encoder) (real coroutines)"
 // @harness sym="written offset, every arena byte, clock, per write: error / accepted 1..=n bytes; per flush: error / ok; after each Pending: drop (cancel) or re-poll" bounds="one step on PUBACK(id 7), 5 bytes; flush phase, transport ready; <= 3 polls; keep-alive 60 s"
 // @harness assumes="transport contract: write never returns Ok(0) for a non-empty buffer; a pending write/flush has accepted nothing (cancel-safe I/O)"
@@ -354,7 +354,7 @@ absout_harness!(c01_step_ping_write_wpend, 8, { step_body(g::K_PING, 0, true, tr
 // @harness assumes="transport contract: write never returns Ok(0) for a non-empty buffer; a pending write/flush has accepted nothing (cancel-safe I/O)"
 absout_harness!(c01_step_ping_write_fpend, 8, { step_body(g::K_PING, 0, true, false, true) });
 
-// @harness props=C01,C13,C10,C16 quick_props=C10 tier=quick layer=L3c unwind=8 heavy=1
+// @harness props=C01,C13,C10,C16 quick_props=C10,C16 tier=quick layer=L3c unwind=8 heavy=1
 // @harness funcs="Connection::perform_outbound_step (Control PingReq), complete_flush (real coroutines)"
 // @harness sym="written offset, every arena byte, clock, per write: error / accepted 1..=n bytes; per flush: error / ok; after each Pending: drop (cancel) or re-poll" bounds="one step on PINGREQ, 2 bytes; flush phase, transport ready; <= 3 polls; keep-alive 60 s"
 // @harness assumes="transport contract: write never returns Ok(0) for a non-empty buffer; a pending write/flush has accepted nothing (cancel-safe I/O)"
@@ -384,7 +384,7 @@ absout_harness!(c01_step_release_write_wpend, 8, { step_body(g::K_REL, 0, true, 
 // @harness assumes="transport contract: write never returns Ok(0) for a non-empty buffer; a pending write/flush has accepted nothing (cancel-safe I/O)"
 absout_harness!(c01_step_release_write_fpend, 8, { step_body(g::K_REL, 0, true, false, true) });
 
-// @harness props=C01,C13,C03,C16 tier=thorough layer=L3c unwind=8 heavy=1
+// @harness props=C01,C13,C03,C16 quick_props=C03,C16 tier=quick layer=L3c unwind=8 heavy=1
 // @harness funcs="Connection::perform_outbound_step (Release), serialize_pubrel (real coroutines)"
 // @harness sym="written offset, every arena byte, clock, per write: error / accepted 1..=n bytes; per flush: error / ok; after each Pending: drop (cancel) or re-poll" bounds="one step on PUBREL(id 9), 5 bytes; flush phase, transport ready; <= 3 polls; keep-alive 60 s"
 // @harness assumes="transport contract: write never returns Ok(0) for a non-empty buffer; a pending write/flush has accepted nothing (cancel-safe I/O)"
